@@ -17,14 +17,18 @@ RULE = ("one cell of the product decorator {asynq, asynq(pure), async_proxy, asy
         "given positionally, instance omitted} x body shape {plain, generator on ConstFuture, generator on another task, "
         "batch-blocking DebugBatchItem, plain / generator body that looks at get_active_task()} x return style {return v, "
         "result(v); return} x calling context {top level, inside a generator task, inside a plain-bodied task, inside a "
-        "synchronously called nested task}; the quick tier enumerates decorator x binding x argument pattern x the four "
+        "synchronously called nested task} x lookup history {0-3 earlier uses of the same decorated attribute through another "
+        "class or instance of the hierarchy C, Sub(C), Sub2(C): bare lookup, synchronous call, .asynq().value(), async_call}; "
+        "bindings also through the sibling subclass instance / class and a classmethod through a subclass instance; the quick tier enumerates decorator x binding x argument pattern x the four "
         "original shapes at top level, and decorator x binding x shape x return style x context for the default and the "
-        "raising call; the thorough tier enumerates the whole product and adds value re-assignments and a random stream; "
+        "raising call, and for every decorator x binding every one-step history (path x act) plus random longer ones; the thorough tier enumerates the whole product and adds value re-assignments and a random stream; "
         "every cell is distinct and non-trivial (DESIGN 5.22)")
 TRUSTED = ["Python's own attribute lookup (function/classmethod/staticmethod/bound-method objects) is modelled (py_get), not verified",
            "the theorems are about a table-like model of the descriptor protocol; the exhaustive correspondence over the full "
            "product carries most of the weight"]
-ASSUMPTIONS = ["each calling convention runs on a freshly built callable (caches and deduplication never suppress a body)",
+ASSUMPTIONS = ["each calling convention runs on a freshly built callable (caches and deduplication never suppress a body); the warm-ups of "
+               "the lookup history are replayed on each of them, with argument values (700+i) different from the call under test, so "
+               "that the argument-keyed caches of alru_cache / acached_per_instance are not hit (their behaviour is not C09's subject)",
                "for callables without .asynq (pure) the direct call is the asynchronous form; there is no synchronous form",
                "decorator order for classmethod/staticmethod as in asynq/tests/test_decorators.py (@asynq() outside @classmethod)",
                "asyncio mode (fn.asyncio) is C15's subject and is off here",
@@ -32,11 +36,19 @@ ASSUMPTIONS = ["each calling convention runs on a freshly built callable (caches
                "calling contexts are tasks of the default AsyncTask class driven by a synchronous call at top level; the forms are "
                "executed in the body of that task, one form per freshly built callable"]
 EXPLANATION = ("Coq: conventions_agree / receiver_once / sync_fn_runs_sync / classify_consistent / context_independent / caller_intact / "
-               "body_in_own_task / result_is_return for all decorator x binding cells, argument lists, body kinds and calling contexts; "
+               "body_in_own_task / result_is_return / history_independent / trace_independent / bound_to_own_lookup for all decorator x binding cells, argument lists, body kinds and calling contexts; "
                "correspondence: exhaustive product through the real decorators in both builds")
 
 DECOS = ["DAsynq", "DPure", "DProxy", "DProxyPure", "DPair", "DWrap", "DDedup", "DRetry", "DLru", "DCpi"]
-BINDINGS = ["BFunc", "BInst", "BClass", "BSub", "BCmClass", "BCmInst", "BCmSub", "BSmClass", "BSmInst"]
+OLD_BINDINGS = ["BFunc", "BInst", "BClass", "BSub", "BCmClass", "BCmInst", "BCmSub", "BSmClass", "BSmInst"]
+NEW_BINDINGS = ["BSub2", "BCmSub2", "BCmSubInst"]       # sibling subclass instance / class; classmethod via subclass instance
+BINDINGS = OLD_BINDINGS + NEW_BINDINGS
+# the paths one decorated attribute of a given kind can be looked up through
+KIND = {"BFunc": "func", "BInst": "meth", "BClass": "meth", "BSub": "meth", "BSub2": "meth", "BCmClass": "cm", "BCmInst": "cm",
+        "BCmSub": "cm", "BCmSub2": "cm", "BCmSubInst": "cm", "BSmClass": "sm", "BSmInst": "sm"}
+PATHS = {k: [b for b in BINDINGS if KIND[b] == k] for k in ("func", "meth", "cm", "sm")}
+WACTS = ["WGet", "WSync", "WAsynq", "WAsyncCall"]
+WFORM = {"WSync": "Sync", "WAsynq": "AsynqValue", "WAsyncCall": "AsyncCall"}
 SHAPES = ["BPlain", "BGenConst", "BGenTask", "BBatch", "BPlainOwn", "BGenOwn"]
 OLD_SHAPES = SHAPES[:4]
 RETSTYLES = ["RetReturn", "RetResult"]
@@ -46,14 +58,15 @@ OWN_CODES = {"BPlainOwn": (8, 9, 10), "BGenOwn": (11, 12, 13)}      # own task /
 FORMS = ["Sync", "AsynqValue", "YieldAsynq", "AsyncCall", "YieldDirect", "ViaGetAsync", "ViaGetAsyncOrSync"]
 EXTRA = {"BPlain": 0, "BGenConst": 5, "BGenTask": 6, "BBatch": 7, "BPlainOwn": 8, "BGenOwn": 11}
 EXPECTED_RECV = {"BFunc": None, "BInst": "RObj", "BClass": "RObj", "BSub": "RSubObj", "BCmClass": "RCls", "BCmInst": "RCls",
-                 "BCmSub": "RSubCls", "BSmClass": None, "BSmInst": None}
+                 "BCmSub": "RSubCls", "BSmClass": None, "BSmInst": None, "BSub2": "RSub2Obj", "BCmSub2": "RSub2Cls",
+                 "BCmSubInst": "RSubCls"}
 
 
 def valid(d, b):
     if d in ("DRetry", "DLru"):
-        return b in ("BFunc", "BInst", "BClass", "BSub")
+        return b in ("BFunc", "BInst", "BClass", "BSub", "BSub2")
     if d == "DCpi":
-        return b in ("BInst", "BClass", "BSub")
+        return b in ("BInst", "BClass", "BSub", "BSub2")
     return True
 
 
@@ -76,10 +89,13 @@ PATTERNS = {
 KN = {"a": "Ka", "b": "Kb", "k": "Kk", "z": "Kz", "R": "Ka"}
 
 
-def mk(d, b, explicit, pos, kw, bk, meta, ctx="CTop"):
+def mk(d, b, explicit, pos, kw, bk, meta, ctx="CTop", hist=()):
+    """hist: the warm-ups [(path, act)], earlier uses of the same attribute; warm-up i is called with the value 700+i"""
     if isinstance(bk, str):
         bk = (bk, "RetReturn")
-    args = [d, b, "true" if explicit else "false", list(pos), [{"": [n, v]} for n, v in kw], {"BK": list(bk)}, ctx]
+    assert all(KIND[w[0]] == KIND[b] for w in hist)
+    args = [d, b, "true" if explicit else "false", list(pos), [{"": [n, v]} for n, v in kw], {"BK": list(bk)}, ctx,
+            [{"": [w[0], w[1], (w[2] if len(w) > 2 else 700 + i)]} for i, w in enumerate(hist)]]
     return {"args": args, "tree": args, "meta": meta}
 
 
@@ -93,13 +109,13 @@ def instantiate(pat, vals):
 CANON_VALS = {"a": 1, "b": 2, "c": 4, "k": 3, "z": 5}
 
 
-def product(vals_of, tag, patterns=None, bodykinds=None, ctxs=("CTop",), skip=None, omitted=True):
+def product(vals_of, tag, patterns=None, bodykinds=None, ctxs=("CTop",), skip=None, omitted=True, bindings=None):
     """decorator x binding x patterns x bodykinds x ctxs (minus what `skip` says is enumerated elsewhere)."""
     out = []
     patterns = list(PATTERNS) if patterns is None else patterns
     bodykinds = [(sh, "RetReturn") for sh in OLD_SHAPES] if bodykinds is None else bodykinds
     for d in DECOS:
-        for b in BINDINGS:
+        for b in (BINDINGS if bindings is None else bindings):
             if not valid(d, b):
                 continue
             for pat in patterns:
@@ -127,15 +143,67 @@ def _in_base(pat, bk, cx):
     return cx == "CTop" and bk[1] == "RetReturn" and bk[0] in OLD_SHAPES
 
 
+def histories(b, n, acts=WACTS):
+    """every history of length n over the paths of b's kind"""
+    steps = [(p, a) for p in PATHS[KIND[b]] for a in acts]
+    out = [[]]
+    for _ in range(n):
+        out = [h + [st] for h in out for st in steps]
+    return out
+
+
+def history_product(tag, n, acts=WACTS, patterns=("default",), bodykinds=(("BPlain", "RetReturn"),), ctxs=("CTop",)):
+    """decorator x binding x every history of length n (the same attribute used earlier through every other path)"""
+    out = []
+    for d in DECOS:
+        for b in BINDINGS:
+            if not valid(d, b):
+                continue
+            for h in histories(b, n, acts):
+                if not all(valid(d, p) for p, _ in h):
+                    continue
+                for pat in patterns:
+                    for bk in bodykinds:
+                        for cx in ctxs:
+                            pos, kw = instantiate(pat, CANON_VALS)
+                            out.append(mk(d, b, True, pos, kw, bk, {"pattern": pat, "malformed": PATTERNS[pat][2], "stream": tag}, cx, h))
+    return out
+
+
+def random_history_cases(rng, n, tag):
+    out = []
+    cells = [(d, b) for d in DECOS for b in BINDINGS if valid(d, b) and b != "BFunc"]
+    for _ in range(n):
+        d, b = rng.choice(cells)
+        paths = [p for p in PATHS[KIND[b]] if valid(d, p)]
+        h = [(rng.choice(paths), rng.choice(WACTS)) for _ in range(rng.choice([1, 2, 2, 3, 3]))]
+        pat = rng.choice(list(PATTERNS))
+        pos, kw = instantiate(pat, CANON_VALS)
+        out.append(mk(d, b, True, pos, kw, rng.choice(BODYKINDS), {"pattern": pat, "malformed": PATTERNS[pat][2], "stream": tag},
+                      rng.choice(CTXS), h))
+    return out
+
+
 def gen_cases(rng, tier):
     # the original product: every argument pattern, at top level, bodies ending in `return v`
-    cs = product(lambda: CANON_VALS, "product")
-    if tier == "quick":
+    quick = tier == "quick"
+    cs = product(lambda: CANON_VALS, "product", bindings=OLD_BINDINGS if quick else None)
+    if quick:
         # the calling-context / return-style / own-task dimensions, exhaustively, for the call that binds and the one that raises
-        cs += product(lambda: CANON_VALS, "product-context", QUICK_CTX_PATTERNS, BODYKINDS, CTXS, _in_base, omitted=False)
+        cs += product(lambda: CANON_VALS, "product-context", QUICK_CTX_PATTERNS, BODYKINDS, CTXS, _in_base, omitted=False,
+                      bindings=OLD_BINDINGS)
+        # the sibling-subclass / subclass-instance bindings: every argument pattern
+        cs += product(lambda: CANON_VALS, "product-new-bindings", None, [("BPlain", "RetReturn")], bindings=NEW_BINDINGS)
+        # lookup history: every decorator x binding after every one-step history (path x act) of the same attribute
+        cs += history_product("history-1", 1)
+        cs += random_history_cases(rng, 500, "history-random")
     else:
         cs += product(lambda: CANON_VALS, "product-context", None, BODYKINDS, CTXS, _in_base)
-    if tier != "quick":
+        cs += history_product("history-1", 1, patterns=("default", "keyword-only", "raises"),
+                              bodykinds=[("BPlain", "RetReturn"), ("BGenOwn", "RetResult")], ctxs=("CTop", "CGen"))
+        cs += history_product("history-2", 2, acts=["WGet", "WSync", "WAsynq"])
+        cs += random_history_cases(rng, 4000, "history-random")
+    if not quick:
         def rv():
             return {x: rng.choice([v for v in range(-3, 60)]) for x in "abckz"}
         for _ in range(3):
@@ -149,14 +217,16 @@ def gen_cases(rng, tier):
             rng.shuffle(names)
             kw = [(n, rng.choice([0, 1, 2, 50, 99])) for n in names]
             explicit = not (b == "BClass" and rng.random() < 0.2)
+            paths = [p for p in PATHS[KIND[b]] if valid(d, p)]
+            h = [(rng.choice(paths), rng.choice(WACTS)) for _ in range(rng.choice([0, 0, 1, 2]))]
             cs.append(mk(d, b, explicit, pos, kw, rng.choice(BODYKINDS), {"pattern": "random", "malformed": None, "stream": "random"},
-                         rng.choice(CTXS)))
+                         rng.choice(CTXS), h))
     return cs
 
 
-def _corp(d, b, pat, bk, ctx="CTop"):
+def _corp(d, b, pat, bk, ctx="CTop", hist=()):
     pos, kw = instantiate(pat, CANON_VALS)
-    return mk(d, b, True, pos, kw, bk, {"pattern": pat, "malformed": PATTERNS[pat][2], "stream": "corpus", "corpus": True}, ctx)
+    return mk(d, b, True, pos, kw, bk, {"pattern": pat, "malformed": PATTERNS[pat][2], "stream": "corpus", "corpus": True}, ctx, hist)
 
 
 # the diagonal asynq's own suite visits, plus the cell of the known finding
@@ -175,6 +245,10 @@ CORPUS = [
     _corp("DAsynq", "BFunc", "default", ("BPlain", "RetResult"), "CGen"),         # result(v); return  in a plain body
     _corp("DAsynq", "BInst", "default", ("BPlainOwn", "RetReturn"), "CPlain"),    # the body looks at get_active_task()
     _corp("DPair", "BCmClass", "keyword", ("BGenOwn", "RetResult"), "CNested"),
+    # one decorated attribute used through several classes of a hierarchy: each call is bound to the class it is made through
+    _corp("DPair", "BCmSub", "default", "BPlain", hist=[("BCmClass", "WGet")]),                 # C.load looked up, then Sub.load(1)
+    _corp("DPair", "BCmClass", "keyword", "BGenConst", hist=[("BCmSub2", "WSync"), ("BCmSubInst", "WAsynq")]),   # sibling first
+    _corp("DAsynq", "BSub2", "default", "BPlain", hist=[("BInst", "WAsynq"), ("BClass", "WSync"), ("BSub", "WAsyncCall")]),
 ]
 
 
@@ -194,8 +268,11 @@ def compare(c, m, io):
     if m == io["out"]:
         return None
     try:
-        mf, mc = m[""]
-        if_, ic = io["out"][""]
+        mf, mc, mw = m[""]
+        if_, ic, iw = io["out"][""]
+        for i, (a, b) in enumerate(zip(mw, iw)):
+            if a != b:
+                return "warm-up %d (%s): model %s, implementation %s" % (i, json.dumps(c["args"][7][i]), json.dumps(a), json.dumps(b))
         for name, a, b in zip(FORMS, mf, if_):
             if a != b:
                 return "form %s in %s: model %s, implementation %s" % (name, c["args"][6], json.dumps(a), json.dumps(b))
@@ -210,7 +287,10 @@ def compare(c, m, io):
 def distribution(cases):
     d = {"decorator": {}, "binding": {}, "pattern": {}, "body": {}, "stream": {}, "malformed": 0,
          "cells_decorator_x_binding": len({(c["args"][0], c["args"][1]) for c in cases}),
-         "shape": {}, "return_style": {}, "context": {},
+         "shape": {}, "return_style": {}, "context": {}, "history_length": {}, "history_act": {}, "history_path": {},
+         "history_through_other_class_or_instance": 0,
+         "cells_decorator_x_binding_x_one_step_history": len({(c["args"][0], c["args"][1], json.dumps(c["args"][7][0][""][:2]))
+                                                             for c in cases if len(c["args"][7]) == 1}),
          "cells_full_product": len({(c["args"][0], c["args"][1], c["meta"]["pattern"], tuple(c["args"][5]["BK"]), c["args"][6])
                                     for c in cases if c["meta"].get("stream") != "random"}),
          "cells_decorator_x_binding_x_bodykind_x_context": len({(c["args"][0], c["args"][1], tuple(c["args"][5]["BK"]), c["args"][6])
@@ -220,7 +300,8 @@ def distribution(cases):
     d["full_product_size"] = full
     d["exhaustive"] = d["cells_full_product"] >= full
     d["exhaustive_subspaces"] = ["decorator x binding x argument pattern x original shapes, return v, top level",
-                                 "decorator x binding x body shape x return style x calling context (default and raising call)"]
+                                 "decorator x binding x body shape x return style x calling context (default and raising call)",
+                                 "decorator x binding x one-step lookup history (path of the same kind x act)"]
     for c in cases:
         a = c["args"]
         for key, v in (("decorator", a[0]), ("binding", a[1]), ("pattern", c["meta"]["pattern"]), ("body", "/".join(a[5]["BK"])),
@@ -228,6 +309,12 @@ def distribution(cases):
                        ("stream", c["meta"].get("stream"))):
             d[key][v] = d[key].get(v, 0) + 1
         d["malformed"] += 1 if c["meta"].get("malformed") else 0
+        hl = [w[""] for w in a[7]]
+        d["history_length"][str(len(hl))] = d["history_length"].get(str(len(hl)), 0) + 1
+        for w in hl:
+            d["history_act"][w[1]] = d["history_act"].get(w[1], 0) + 1
+            d["history_path"][w[0]] = d["history_path"].get(w[0], 0) + 1
+        d["history_through_other_class_or_instance"] += 1 if any(w[0] != a[1] for w in hl) else 0
     return d
 
 
@@ -298,11 +385,12 @@ def _bad_value(res):
 
 
 def monitors(c, io, build):
-    d, b, explicit, pos, kwl, bkt, ctx = c["args"]
+    d, b, explicit, pos, kwl, bkt, ctx, histl = c["args"]
+    hist = [tuple(w[""]) for w in histl]
     bk, rs = bkt["BK"]
     explicit = explicit == "true"
     kw = [tuple(x[""]) for x in kwl]
-    forms, cl = io["out"][""]
+    forms, cl, warm = io["out"][""]
     R = {}
     CALLER = {}
     for name, f in zip(FORMS, forms):
@@ -315,7 +403,71 @@ def monitors(c, io, build):
 
     def hit(clause, site, msg, ctx_free=False):
         fs.append(dict(clause=clause, site=site + ("" if ctx_free else where),
-                       msg="%s [%s %s %s/%s %s pos=%s kw=%s]" % (msg, d, b, bk, rs, ctx, pos, kw)))
+                       msg="%s [%s %s %s/%s %s pos=%s kw=%s%s]" % (msg, d, b, bk, rs, ctx, pos, kw,
+                                                                  " after " + json.dumps(hist) if hist else "")))
+
+    # (H) bound to the class it was called through: every use of ONE decorated attribute - the warm-ups of the history and
+    #     the call under test - runs the body bound to the class / instance THAT use was made through, whatever was looked
+    #     up before; the synchronous call of a sync_fn pair runs sync_fn, every other form fn
+    def earlier(i, got):
+        """the earlier lookup (path) whose receiver a body wrongly saw"""
+        for p, _a, _v in hist[:i]:
+            r = EXPECTED_RECV[p]
+            if r is not None and got == {"Some": [{"AObj": [r]}]}:
+                return p
+        return None
+
+    def recv_of(p):
+        return "None" if EXPECTED_RECV[p] is None else {"Some": [{"AObj": [EXPECTED_RECV[p]]}]}
+
+    if len(warm) != len(hist):
+        hit("bound-to-the-class-called-through", "%s:%s:history:%d-outcomes-for-%d-warm-ups" % (d, b, len(warm), len(hist)), "runner")
+    for i, ((p, act, v), w) in enumerate(zip(hist, warm)):
+        if act == "WGet":
+            continue
+        st, calls, res = w["Some"][0][""]
+        n = "warm-" + WFORM[act]
+        if act == "WAsynq" and d in ("DPure", "DProxyPure"):
+            if st != "SNoAsynqAttr" or calls:
+                hit("conventions-agree", "%s:%s:%s:asynq-attribute-appeared" % (d, p, n), "%s has .asynq after %s" % (p, hist[:i]), True)
+            continue
+        bodies = _bodies(calls)
+        want_tag = "SyncBody" if (d == "DPair" and act == "WSync") else "FnBody"
+        want_args = [{"AVal": [v]}, {"AVal": [20]}, {"AVal": [30]}]
+        if len(bodies) != 1:
+            hit("bound-to-the-class-called-through", "%s:%s:%s:body-ran-%d-times" % (d, p, n, len(bodies)),
+                "warm-up %d (%s %s %d) ran the body %d times: %s" % (i, p, act, v, len(bodies), json.dumps(res)), True)
+            continue
+        x = bodies[0]
+        if x[0] != want_tag:
+            hit("sync-fn-runs-sync", "%s:%s:%s:ran-%s" % (d, p, n, x[0]), "warm-up %d (%s %s) ran %s" % (i, p, act, x[0]), True)
+        if x[1] != recv_of(p):
+            e = earlier(i, x[1])
+            hit("bound-to-the-class-called-through",
+                "%s:%s:%s:%s" % (d, p, n, "bound-to-earlier-lookup:" + e if e else "receiver"),
+                "warm-up %d, made through %s, ran the body bound to %s, expected %s%s" % (
+                    i, p, json.dumps(x[1]), json.dumps(recv_of(p)), " (what the earlier lookup through %s binds)" % e if e else ""), True)
+        elif x[2:] != want_args:
+            hit("bound-to-the-class-called-through", "%s:%s:%s:arguments" % (d, p, n),
+                "warm-up %d (%s %s %d): body saw %s" % (i, p, act, v, json.dumps(x[2:])), True)
+        else:
+            val = {"VBody": [want_tag] + want_args + [EXTRA[bk] if want_tag == "FnBody" else 0]}
+            want_res = {"ROk": [{"VWrapped": [val]} if d == "DWrap" else val]}
+            if res != want_res:
+                hit("same-outcome", "%s:%s:%s:outcome" % (d, p, n), "warm-up %d (%s %s %d) gave %s, the body's own outcome is %s" % (
+                    i, p, act, v, json.dumps(res), json.dumps(want_res)), True)
+    if hist and explicit:
+        want_r = recv_of(b)
+        for name, f in zip(FORMS, forms):
+            inner = f[""][1]
+            for x in _bodies(inner[""][1]):
+                if x[1] != want_r:
+                    e = earlier(len(hist), x[1])
+                    if e:
+                        hit("bound-to-the-class-called-through", "%s:%s:%s:bound-to-earlier-lookup:%s" % (d, b, name, e),
+                            "%s, made through %s, ran the body bound to %s - what the earlier lookup through %s binds - instead of %s" % (
+                                name, b, json.dumps(x[1]), e, json.dumps(want_r)), True)
+                    break
 
     # (0) the call hands its outcome to the caller: a form executed inside a running task must not finish THAT task
     #     with the callee's value, and no AsyncTaskResult may come out of a form as an exception
@@ -472,22 +624,31 @@ def monitors(c, io, build):
 
 
 def shrink(c):
-    d, b, explicit, pos, kwl, bkt, ctx = c["args"]
+    d, b, explicit, pos, kwl, bkt, ctx, histl = c["args"]
+    hist = [tuple(w[""]) for w in histl]
     bk, rs = bkt["BK"]
     kw = [tuple(x[""]) for x in kwl]
     ex = explicit == "true"
     seen = set()
 
-    def out(pos2, kw2, bk2, ex2=ex, rs2=rs, ctx2=ctx):
-        x = mk(d, b, ex2, pos2, kw2, (bk2, rs2), {"pattern": "shrunk", "malformed": None, "stream": "shrunk"}, ctx2)
+    def out(pos2, kw2, bk2, ex2=ex, rs2=rs, ctx2=ctx, hist2=None):
+        x = mk(d, b, ex2, pos2, kw2, (bk2, rs2), {"pattern": "shrunk", "malformed": None, "stream": "shrunk"}, ctx2,
+               hist if hist2 is None else hist2)
         k = canon(x)
         if k in seen or k == canon(c):
             return None
         seen.add(k)
         return x
     cands = []
-    if ex and pos == [1] and not kw and bk == "BPlain" and rs == "RetReturn" and ctx == "CTop":
+    if ex and pos == [1] and not kw and bk == "BPlain" and rs == "RetReturn" and ctx == "CTop" and not hist:
         return          # already the minimal call that binds
+    if hist:
+        cands.append(out(pos, kw, bk, hist2=[]))
+        for i in range(len(hist)):
+            cands.append(out(pos, kw, bk, hist2=hist[:i] + hist[i + 1:]))
+        for i in range(len(hist)):
+            if hist[i][1] != "WGet":
+                cands.append(out(pos, kw, bk, hist2=hist[:i] + [(hist[i][0], "WGet", hist[i][2])] + hist[i + 1:]))
     if ctx != "CTop":
         cands.append(out(pos, kw, bk, ctx2="CTop"))
         if ctx != "CGen":
